@@ -877,6 +877,12 @@ func ruleC15_3(c *Ctx) {
 				}
 				continue
 			}
+			// the comparison function of sort.Slice / sort.SliceStable is called with 0 <= i, j < len(x) by contract:
+			// indexing the sorted slice (captured) with its two parameters is in range
+			if s.idx != nil && lessFuncIndex(f, s) {
+				c.ok(R, fname(f), s.descr, s.in.Pos(), "index is a parameter of the comparison function passed to sort.Slice over this very slice")
+				continue
+			}
 			// general idiom: a slice that received one unconditional append per element of a map known to be non-empty
 			// here has at least one element: x[0], x[1:], x[:1]
 			if need, okNeed := constNeed(s); okNeed && need <= 1 && accumulatedFromNonEmptyMap(c, s) {
@@ -1390,6 +1396,58 @@ func (c *Ctx) varBelowLenEdge(f *ssa.Function, i, x ssa.Value, blk, succ *ssa.Ba
 		return taken
 	case bo.Op == token.GEQ && bo.X == i && isLen(bo.Y), bo.Op == token.LEQ && bo.Y == i && isLen(bo.X):
 		return !taken
+	}
+	return false
+}
+
+// lessFuncIndex: f is a closure passed as comparison function to sort.Slice / sort.SliceStable(x, f), the index is one
+// of f's parameters and the indexed value is the captured x.
+func lessFuncIndex(f *ssa.Function, s boundSite) bool {
+	if f.Parent() == nil {
+		return false
+	}
+	prm, ok := s.idx.(*ssa.Parameter)
+	if !ok || prm.Parent() != f {
+		return false
+	}
+	// the indexed value: load of a free variable
+	ld, ok := s.x.(*ssa.UnOp)
+	if !ok {
+		return false
+	}
+	fv, ok := ld.X.(*ssa.FreeVar)
+	if !ok {
+		return false
+	}
+	fvIdx := -1
+	for i, v := range f.FreeVars {
+		if v == fv {
+			fvIdx = i
+		}
+	}
+	for _, b := range f.Parent().Blocks {
+		for _, in := range b.Instrs {
+			call, ok := in.(ssa.CallInstruction)
+			if !ok {
+				continue
+			}
+			if n := calleeName(call); n != "sort.Slice" && n != "sort.SliceStable" {
+				continue
+			}
+			args := call.Common().Args
+			mc, ok := args[1].(*ssa.MakeClosure)
+			if !ok || mc.Fn != ssa.Value(f) || fvIdx < 0 || fvIdx >= len(mc.Bindings) {
+				continue
+			}
+			// the sorted value is a load of the bound variable
+			sorted := args[0]
+			if mi, ok := sorted.(*ssa.MakeInterface); ok {
+				sorted = mi.X
+			}
+			if l2, ok := sorted.(*ssa.UnOp); ok && l2.X == mc.Bindings[fvIdx] {
+				return true
+			}
+		}
 	}
 	return false
 }
